@@ -1177,6 +1177,9 @@ class DirectPtychography(RNGMixin, AutoSerialize):
         if verbose is None:
             verbose = self.verbose
 
+        # resolve aliases (e.g. 'defocus') once, for the reconstruction and the shifts alike
+        aberration_coefs = validate_aberration_coefficients(dict(aberration_coefs))
+
         if bf_mask is None:
             bf_mask = self.bf_mask
         bf = self._return_bf_context(bf_mask)
